@@ -476,15 +476,15 @@ def run(tier, seed, replay=None):
         cases = [d["replay"]["case"]] if "case" in d.get("replay", {}) else []
     else:
         cases = vf.load_corpus(PROP)
-        n = 60 if tier == "quick" else 1500
+        n = 60 if tier == "quick" else 900
         cases += gen_cases(r.rng, n, start=1000)
         ex = gen_exhaustive(two_rounds=False)
         if tier == "quick":
             cases += r.rng.sample(ex, 24)
         else:
-            cases += ex + gen_exhaustive(two_rounds=True)
+            cases += ex + r.rng.sample(gen_exhaustive(two_rounds=True), 600)
         r.cov["exhaustive_universe"] = (f"{len(ACTS1)}^2 (parent action, strand action) x 2 orders x 2 policies = {len(ex)} "
-                                        + ("all run, plus " + str(len(ACTS1) ** 3 * 2) + " two-round cases" if tier != "quick"
+                                        + ("all run, plus 600 sampled two-round cases" if tier != "quick"
                                            else "of which 24 sampled in the quick tier"))
     try:
         bins = vf.cargo_build(["c15"])
